@@ -19,7 +19,7 @@ struct Chooser {
   Chooser(const unsigned char *d, size_t len) : p(d), n(len) {}
   unsigned byte() { return i < n ? p[i++] : 0; }
   unsigned pick(unsigned k) { if (k <= 1) return 0; if (k <= 256) return byte() % k; unsigned v = (byte() << 8) | byte(); return v % k; }
-  bool chance(unsigned num, unsigned den) { return pick(den) < num; }
+  bool chance(unsigned num, unsigned den) { return pick(den) + num >= den; }   // an exhausted / all-zero stream takes no "rare" branch
   uint16_t u16() { unsigned a = byte(); return (uint16_t)((a << 8) | byte()); }
   uint32_t u32() { uint32_t a = u16(); return (a << 16) | u16(); }
   bool empty() const { return i >= n; }
@@ -30,6 +30,7 @@ struct GenCfg {
   bool hostname_owners = false;   // owner/question names restricted to hostname characters (needed to get through ares_dns_write)
   bool api_buildable = false;     // only shapes constructible through the public setters and re-parseable
   bool allow_big = false;
+  unsigned addr_bias = 1;         // out of 8: chance that the answer section is a CNAME chain + address records (what C13/C18 care about)
 };
 
 inline Bytes gen_label(Chooser &c, const GenCfg &cfg, bool rdata_name) {
@@ -133,7 +134,19 @@ inline ref::Msg gen_msg(Chooser &c, const GenCfg &cfg) {
   m.qd.push_back(q);
   if (!cfg.api_buildable && c.chance(1, 30)) { if (c.chance(1, 2)) m.qd.clear(); else m.qd.push_back(q); }
   bool have_opt = false; uint8_t ext = 0;
-  for (int s = 0; s < 3; s++) {
+  if (cfg.allow_big && c.chance(3, 4)) {
+    // "big then repeat": bulk TXT records first (filled without spending choices), so that names first written
+    // beyond offset 16384 get repeated afterwards and whole messages approach / pass 64 KiB
+    unsigned nbig = 40 + c.pick(230); int sect = (int)c.pick(2);
+    for (unsigned i = 0; i < nbig; i++) { RR rr; rr.owner = seen.empty() ? q.name : seen[i % seen.size()]; rr.type = T_TXT; rr.klass = 1; rr.ttl = i; rr.decoded = true; Field f; f.kind = F_ABIN; f.abin.push_back(Bytes(250 + (i % 6), (char)('a' + i % 26))); rr.fields.push_back(f); m.sec[sect].push_back(rr); }
+  }
+  bool addr_shape = c.chance(cfg.addr_bias, 8);
+  if (addr_shape) {
+    unsigned ncn = c.pick(5), nad = c.pick(6); Name cur = q.name;
+    for (unsigned i = 0; i < ncn; i++) { RR rr; rr.owner = cur; rr.type = T_CNAME; rr.klass = 1; rr.ttl = c.chance(1, 2) ? 50 + 100 * c.pick(6) : gen_u32(c); rr.decoded = true; cur = gen_name(c, ocfg, seen, false); rr.fields.push_back(fname(cur)); m.sec[0].push_back(rr); }
+    for (unsigned i = 0; i < nad; i++) { RR rr; rr.owner = cur; rr.type = c.chance(1, 3) ? T_AAAA : T_A; rr.klass = c.chance(1, 10) ? 3 : 1; rr.ttl = c.chance(1, 2) ? 10 + 100 * c.pick(8) : gen_u32(c); gen_rdata(c, cfg, rr, seen); m.sec[0].push_back(rr); }
+  }
+  for (int s = addr_shape ? 1 : 0; s < 3; s++) {
     unsigned n = c.pick(5); if (c.chance(1, 12)) n = 5 + c.pick(40); if (cfg.allow_big && c.chance(1, 8)) n = 60 + c.pick(200);
     for (unsigned i = 0; i < n; i++) {
       RR rr; rr.owner = gen_name(c, ocfg, seen, false);
@@ -157,7 +170,21 @@ inline void mutate(Chooser &c, Bytes &w) {
   if (w.empty()) return;
   unsigned rounds = 1 + c.pick(3);
   for (unsigned r = 0; r < rounds; r++) {
-    unsigned k = c.pick(9); size_t pos = c.pick((unsigned)w.size());
+    unsigned k = c.pick(12); size_t pos = c.pick((unsigned)w.size());
+    if (k >= 9) {
+      // pointer-shape mutations: find an existing backwards pointer A (at offset a, target t) and plant a second pointer at t,
+      // so that decoding hops pointer -> pointer; the planted one goes to itself, forward but below a, onto a, or anywhere
+      std::vector<size_t> ptrs;
+      for (size_t i = 12; i + 1 < w.size(); i++) if (((unsigned char)w[i] & 0xc0) == 0xc0) { size_t t = (((unsigned char)w[i] & 0x3f) << 8) | (unsigned char)w[i + 1]; if (t < i && t + 1 < w.size()) ptrs.push_back(i); }
+      if (ptrs.empty()) { k = 4; }
+      else {
+        size_t a = ptrs[c.pick((unsigned)ptrs.size())]; size_t t = (((unsigned char)w[a] & 0x3f) << 8) | (unsigned char)w[a + 1];
+        size_t nt; unsigned how = c.pick(5);
+        if (how == 0) nt = t; else if (how == 1) nt = t + 1 + c.pick((unsigned)(a - t)); else if (how == 2) nt = a; else if (how == 3) nt = t ? c.pick((unsigned)t) : 0; else nt = c.pick((unsigned)w.size());
+        w[t] = (char)(0xc0 | ((nt >> 8) & 0x3f)); w[t + 1] = (char)(nt & 0xff);
+        continue;
+      }
+    }
     switch (k) {
       case 0: w[pos] = (char)c.byte(); break;
       case 1: w[pos] = (char)(w[pos] ^ (1 << c.pick(8))); break;
@@ -249,7 +276,9 @@ inline std::string cares_dump(const ares_dns_record_t *rec) {
           case ARES_DATATYPE_U8: o << " u8=" << (unsigned)ares_dns_rr_get_u8(rr, key); break;
           case ARES_DATATYPE_U16: o << " u16=" << (unsigned)ares_dns_rr_get_u16(rr, key); break;
           case ARES_DATATYPE_U32: o << " u32=" << ares_dns_rr_get_u32(rr, key); break;
-          case ARES_DATATYPE_NAME: o << " name=" << text_name_hex(ares_dns_rr_get_str(rr, key)); break;
+          case ARES_DATATYPE_NAME:
+            if (key == ARES_RR_URI_TARGET) { const char *sv = ares_dns_rr_get_str(rr, key); o << " str=" << (sv ? hex((const unsigned char *)sv, strlen(sv)) : "NULL"); break; }  // RFC 7553: the target is raw text, not a domain name
+            o << " name=" << text_name_hex(ares_dns_rr_get_str(rr, key)); break;
           case ARES_DATATYPE_STR: { const char *sv = ares_dns_rr_get_str(rr, key); o << " str=" << (sv ? hex((const unsigned char *)sv, strlen(sv)) : "NULL"); break; }
           case ARES_DATATYPE_BIN: case ARES_DATATYPE_BINP: { size_t l = 0; const unsigned char *b = ares_dns_rr_get_bin(rr, key, &l); o << " bin=" << ((b || l == 0) ? hex(b, l) : "NULL"); break; }
           case ARES_DATATYPE_ABINP: { o << " abin=("; size_t cnt = ares_dns_rr_get_abin_cnt(rr, key); for (size_t j = 0; j < cnt; j++) { size_t l = 0; const unsigned char *b = ares_dns_rr_get_abin(rr, key, j, &l); o << ((b || l == 0) ? hex(b, l) : "NULL") << ","; } o << ")"; break; }
@@ -275,7 +304,7 @@ inline std::string diff_clause(const std::string &a, const std::string &b) {
     if (ga != gb) return "rr-count";
     if (la != lb) {
       std::istringstream ta(la), tb(lb); std::string wa, wb, sec; ta >> sec; tb >> wb; if (sec != wb) return "section";
-      int idx = 0; while (true) { bool ha = (bool)(ta >> wa), hb = (bool)(tb >> wb); if (!ha || !hb) return sec + ".field-count"; idx++; if (wa != wb) { std::string k = wa.substr(0, wa.find('=')); if (sec != "H" && sec != "Q" && idx == 1) k = "owner"; return sec + "." + k; } }
+      int idx = 0; while (true) { bool ha = (bool)(ta >> wa), hb = (bool)(tb >> wb); if (!ha || !hb) return sec + ".field-count"; idx++; if (wa != wb) { std::string k = wa.substr(0, wa.find('=')); if (k.rfind("BADESCAPE", 0) == 0 || wa.find("=BADESCAPE") != std::string::npos) return sec + ".name-bad-escape"; if (sec != "H" && idx == 1) k = (sec == "Q") ? "name" : "owner"; return sec + "." + k; } }
     }
   }
 }
